@@ -141,9 +141,12 @@ def mk_obs(first, depth, slow, reg_con, allow_rst=True, two_observers=False, d20
                     if down:
                         break
                     ev = pick(EV, e)
-                    if d20 == "exclude" and reg is not None and ev in ("rereg", "plainget", "dereg") and queued():
-                        # known finding D20: a registration ended by a new request on its token while notifications of
-                        # it wait in the NSTART backlog -- they are still transmitted afterwards.  Companion obligations
+                    w_before = len(wire())
+                    reg_before = reg
+                    if d20 == "exclude" and ev in ("rst", "rereg", "plainget", "dereg") and queued() and (ev != "rst" or allow_rst):
+                        # known finding D20: a Reset or a new request on the token arrives while notifications of the registration it
+                        # ends (or of one whose final message is itself still queued) wait in the NSTART backlog -- they are still
+                        # transmitted afterwards.  Companion obligations
                         # observe-backlog-after-end-* keep that class covered; the histories are left out here.
                         return
                     if ev == "change":
@@ -255,8 +258,8 @@ def mk_obs(first, depth, slow, reg_con, allow_rst=True, two_observers=False, d20
                     # (a) once a registration has ended no further notification of it reaches the wire: until a new registration
                     # starts (Observe 0 response) nothing with an Observe option follows; 'last' / 'unsuccessful' end with their
                     # final message, which itself comes after everything handed over earlier
-                    if reg is None and ev in ("rst", "plainget", "dereg", "error", "timer", "shutdown") and quiet_from is None:
-                        quiet_from = len(w)
+                    if reg_before is not None and reg is None and ev in ("rst", "plainget", "dereg", "error", "timer", "shutdown") and quiet_from is None:
+                        quiet_from = w_before           # whatever the ending event itself still puts on the wire counts
                     if reg is not None:
                         quiet_from = None
                     if quiet_from is not None:
@@ -457,7 +460,7 @@ def obligations(tier):
                           symbolic={"how it ends": "index over %s" % FIRST_ENDS, "registration type": "CON / NON", "instant": "0..6 ticks into a rendering of 5 ticks"},
                           stubs=["SimLoop", "FakeDatagramTransport", "integer tuning", "random stubs"]))
     # known finding D20: registration ended while notifications of it wait in the NSTART backlog
-    for nm, kinds in (("new-request", ("rereg", "plainget", "dereg")),):
+    for nm, kinds in (("rst", ("rst",)), ("new-request", ("rereg", "plainget", "dereg"))):
         obs.append(Obligation("observe-backlog-after-end-%s" % nm, mk_obs(0, 3, False, True, d20="include", only=(0, kinds)), 120, functions=FUNCS,
                               expect="violated", finding="D20", twin=False,
                               symbolic={"third event": "index over %s" % (kinds,)},
